@@ -68,12 +68,31 @@ def feval(t, atom):
         fn = t[1]
         if fn[0] == 'g' and fn[1] in ('builtins.int', 'builtins.bool', 'builtins.len', 'builtins.abs',
                                       'builtins.str', 'numpy.abs') and len(t[2]) == 1 and not t[3]:
+            if fn[1] == 'builtins.len' and t[2][0][0] in ('list', 'tuple') and not any(x[0] == 'star' for x in t[2][0][1:]):
+                return len(t[2][0]) - 1          # the length of a display does not depend on its items
             x = feval(t[2][0], atom)
             if x is UNKNOWN:
                 return UNKNOWN
             try:
                 return {'builtins.int': int, 'builtins.bool': bool, 'builtins.len': len, 'builtins.abs': abs,
                         'builtins.str': str, 'numpy.abs': abs}[fn[1]](x)
+            except Exception:
+                return UNKNOWN
+        if fn[0] == 'g' and fn[1] in ('builtins.round', 'numpy.round', 'numpy.around') and 1 <= len(t[2]) <= 2 and not t[3]:
+            vals = [feval(a, atom) for a in t[2]]
+            if any(v is UNKNOWN for v in vals):
+                return UNKNOWN
+            try:
+                return round(*vals)
+            except Exception:
+                return UNKNOWN
+        if fn[0] == 'g' and fn[1] in ('math.floor', 'math.ceil', 'math.trunc') and len(t[2]) == 1 and not t[3]:
+            import math
+            x = feval(t[2][0], atom)
+            if x is UNKNOWN:
+                return UNKNOWN
+            try:
+                return getattr(math, fn[1].split('.')[1])(x)
             except Exception:
                 return UNKNOWN
         if fn[0] == 'g' and fn[1] == 'builtins.range' and 1 <= len(t[2]) <= 3 and not t[3]:
